@@ -88,6 +88,8 @@ func c07Docs(thorough bool) []c07Doc {
 		}(), true},
 		{"D10-no-structurals-after-flush", cat([]byte("["), denseBody(5600), bytes.Repeat([]byte("a"), 400)), false},
 		{"D11-just-above-threshold", cat([]byte("["), denseBody(4097), []byte("0]")), false},
+		{"D12-scope-left-open-ends-with-bracket", cat([]byte("[["), d14, []byte("0]")), false},
+		{"D13-nd-last-line-leaves-scope-open", cat(bytes.Repeat([]byte("{\"i\":1}\n"), 1200), []byte("[{\"i\":2}")), true},
 	}
 	if thorough {
 		docs = append(docs, c07Doc{"D2-dense-valid-40-buffers", cat([]byte("["), denseBody(28000), []byte("0]")), false})
